@@ -1314,4 +1314,10 @@ def kf_bvm_get_bits_end(ctx, f):
     return True
 
 
-KNOWN_PREDICATES = {"bvm_get_bits_end": kf_bvm_get_bits_end}
+def kf_code_longer_than_32(ctx, f):
+    """Huffman tree whose code exceeds 32 bits: only reachable with millions of symbols"""
+    return ctx["kind"] in ("hqwt256", "hqwt512", "hqwt256pfs", "hqwt512pfs", "hwt") and (ctx.get("n") or 0) >= 2000000
+
+
+KNOWN_PREDICATES = {"bvm_get_bits_end": kf_bvm_get_bits_end, "code_longer_than_32_bits": kf_code_longer_than_32,
+                    "never": lambda ctx, f: False}
